@@ -52,17 +52,18 @@ def strategy(tier, shard, nshards):
         G.step_select(n), G.step_select(n), G.step_append(n), G.step_append(n),
         G.step_delete_flag(n, absent), G.step_delete_flag(n, absent), G.step_store(n, absent),
         G.step_expunge(n, absent), G.step_expunge(n, absent), G.step_copy(n, absent), G.step_copy(n, absent),
-        G.step_unselect(n), G.step_fetch(n, absent), G.step_noop(n), G.step_deliver(), G.step_idle(n), G.step_advance(), G.step_advance(),
+        G.step_unselect(n), G.step_fetch(n, absent), G.step_noop(n), G.step_deliver(), G.step_idle(n), G.step_advance(), G.step_advance(), G.steps_examine_probe(n),
     )
     mx = 18 if tier == "quick" else 28
     return st.fixed_dictionaries(
         {
             "rseed": st.integers(0, 2**16),
             "profile": st.just("plain"),
+            "kwx": st.just(True),
             "prefill": st.integers(3, 6),
             "predelete": st.lists(st.integers(0, 5), min_size=1, max_size=2),
             "pack_limit": st.sampled_from([None, None, 3, 4]),
-            "steps": st.lists(step, min_size=6, max_size=mx),
+            "steps": st.lists(step, min_size=6, max_size=mx).map(G.flatten),
         }
     )
 
